@@ -35,6 +35,16 @@ __CPROVER_ensures(RET.m_loc % align == 0)                              /* aligne
 __CPROVER_ensures(self->m_size == RET.m_loc + size)                    /* area covers the new state exactly */
 __CPROVER_assigns(self->m_size);
 
+/* union of alternatives (if/else arms, overload alternatives share one area): afterwards the area is
+   at least as large as before and as every alternative; g_k is an arbitrary fixed index */
+extern size_t g_k;
+void layout_add_union(layout *self, vec_layout layouts)
+__CPROVER_requires(__CPROVER_is_fresh(self, sizeof(layout)) && layouts.len <= 4096)
+__CPROVER_requires(__CPROVER_is_fresh(layouts.data, layouts.len * sizeof(layout)) && g_k < 4096)
+__CPROVER_ensures(self->m_size >= __CPROVER_old(self->m_size))
+__CPROVER_ensures(g_k < layouts.len ==> self->m_size >= layouts.data[g_k].m_size)
+__CPROVER_assigns(self->m_size);
+
 size_t layout_size(const layout *self)
 __CPROVER_requires(__CPROVER_is_fresh(self, sizeof(layout)))
 __CPROVER_ensures(RET == self->m_size)
